@@ -245,6 +245,7 @@ pub proof fn lemma_reader_reports_what_write_info_stored(c: Seq<u8>, tso: int, f
 
 impl BigWigRead {
 //@extract method bigtools/src/bbi/bigwigread.rs get_summary "^impl<R> BigWigRead<R>\s+where\s+R: BBIFileRead"
+//@rule R16
 //@rule R3
 //@sub /io::Result<Summary>/ => Result<Summary, IoError> min=1
 //@sub /self\.reader\(\)\.raw_reader\(\)/ => &mut self.read min=1
@@ -291,6 +292,7 @@ impl BigWigRead {
 
 impl BigBedRead {
 //@extract method bigtools/src/bbi/bigbedread.rs get_summary "^impl<R: BBIFileRead> BigBedRead<R>"
+//@rule R16
 //@rule R3
 //@sub /io::Result<Summary>/ => Result<Summary, IoError> min=1
 //@sub /self\.reader\(\)\.raw_reader\(\)/ => &mut self.read min=1
@@ -330,6 +332,7 @@ impl BigBedRead {
 // `BufReader::new(reader)` -> `reader` (buffering is not modelled: nothing is claimed about the position the
 // underlying reader is left at); `read_u64::<BigEndian>()` -> `read_u64_be()` ...
 //@extract method bigtools/src/bbi/bigbedread.rs item_count "^impl<R: BBIFileRead> BigBedRead<R>"
+//@rule R16
 //@rule R3
 //@sub /self\.reader\(\)\.raw_reader\(\)/ => &mut self.read min=1
 //@sub /let mut reader = BufReader::new\(reader\);\n/ => "" min=0
